@@ -5,6 +5,7 @@ _TRN = "TestVerifC09Transit"
 _VEC = "TestVerifC09RefVectors"
 _SW = "TestVerifC09Switch"
 _IN = "TestVerifC09LinkInputs"
+_IC = "TestVerifC09Intercepted"
 
 PROP = dict(
     level="exploration",
@@ -27,13 +28,36 @@ PROP = dict(
           "and (the link's inbound fee is non-zero or a reforwarded ADD sits behind "
           "an acked one). TestVerifC09RefVectors / TestVerifC09Pinned add 24 hand-computed "
           "vectors for the reference itself and 7 pinned inputs (finding F8 "
-          "reproductions) through the real link."),
+          "reproductions) through the real link. "
+          "TestVerifC09Intercepted: a case is 1-3 generated forwards (each the "
+          "C09Forward generator's policy / heights / amounts / expiries, re-based "
+          "to one common height, each to its own outgoing link whose policy check "
+          "is the real CheckHtlcForward) submitted through a real "
+          "InterceptableSwitch (generated CltvRejectDelta / CltvInterceptDelta / "
+          "RequireInterceptor, interceptor connected or not, replay flag) in "
+          "front of a real started Switch, plus a generated interceptor script "
+          "(<= 6 steps: Resume, ResumeModified with in/out amounts drawn around "
+          "min/max/bandwidth/incoming amount/exact fee and custom records, Fail "
+          "by code or message, Settle, erroneous resolutions, disconnect / "
+          "reconnect, blocks around the auto-fail height, duplicate submission, "
+          "second resolution) and <= 2 steps after everything is resolved. "
+          "Observed: the update_add_htlc handed to the outgoing link and every "
+          "packet delivered to the incoming link's mailbox. Non-trivial = at "
+          "least one htlc of the case (a) reached the Switch through the "
+          "interceptor (resumed, resumed-modified or released; not the "
+          "pass-through without a registered interceptor) with a forwarding rule "
+          "within +-1 msat/block of flipping for the ACTUAL amounts (incoming as "
+          "accounted after an InAmountMsat override, outgoing as really sent) at "
+          "the height of the decision, or (b) has its incoming expiry within +-1 "
+          "block of height + CltvInterceptDelta when submitted, or (c) is held "
+          "while a block within +-1 of its auto-fail height arrives."),
     assumptions=[
         "realistic domain: block height <= 2^32-1-2^17 and OutgoingCltvRejectDelta, MaxOutgoingCltvExpiry <= 2^16, so height+delta cannot wrap uint32 (wrapping heights are generated, run for crashes only and counted as outside_domain)",
         "realistic domain: incoming HTLC amount <= 1e13 msat (100 BTC, 10x lnd's wumbo channel limit); outbound fee rate <= 1e6 ppm (100%); base fee <= 2^32-1 (the advertised field is 32 bit); outgoing (onion) amount and both expiries range over their whole integer type",
         "the inbound fee rate clamp to +-10x and the separate truncation toward zero of the inbound component are taken from lnd's documentation of InboundFee.CalcFee as the specified rounding",
         "custom (aux-channel) HTLCs, for which lnd skips the min/max rule by design, are outside the property; an AuxTrafficShaper is used only as a source of arbitrary bandwidth values",
         "the spendable bandwidth itself (LightningChannel.AvailableBalance) is an input of this property, not checked by it",
+        "Intercepted: block heights <= 2^31-1-2^17 (the InterceptableSwitch gets heights as int32 block epochs); heights above are folded into that range together with both expiries. The incoming amount the node accounts after ResumeModified(InAmountMsat) is the override (doc comment of ResumeModified: 'the value of the inbound HTLC should be interpreted differently ... during further validation'), overrides <= 1e13 msat. The behaviour of the interception state machine itself (who is offered / held / released / auto-failed and with which code) is taken from the doc comments of InterceptableSwitchConfig, FwdResolution, heldHtlcSet and from lnd's own TestSwitchHoldForward / TestInterceptableSwitchWatchDog / TestInterceptableSwitchExpiryTooFar. On-chain (contractcourt) interception, blinded/node-addressed next hops and local payments are not driven. A duplicate submission of a held htlc after a block made it 'too soon' is not driven (lnd answers it with a second, independent failure). bbolt's MaxBatchDelay of the Switch's test database is set to 0 (latency knob of the handle; VERIF_C09_KEEP_BATCH_DELAY=1 keeps it)",
         "LinkInputs: onions are lnd's mock hop iterator encoding (the sphinx layer is not under test); a 'restart' is a reload of the forwarding package from the real channel DB plus a fresh onion decoder; crafted FwdFilter subsets are written through the real ChannelPackager; ADDs are not present in the channel's update log (fail-backs of undecodable/exit ADDs are therefore no-ops and not observed)",
     ],
     jobs=dict(
@@ -43,6 +67,8 @@ PROP = dict(
             job("htlcswitch", "^TestVerifC09Transit$", [_TRN], 50000, shards=4),
             job("htlcswitch", "^TestVerifC09Switch$", [_SW], 30000, shards=4),
             job("htlcswitch", "^TestVerifC09LinkInputs$", [_IN], 20000, shards=4),
+            job("htlcswitch", "^TestVerifC09Intercepted$", [_IC], 40000, shards=4),
+            job("htlcswitch", "^TestVerifC09InterceptReplayTooSoon$", ["TestVerifC09InterceptReplayTooSoon"], 1, shards=1),
         ],
         thorough=[
             job("htlcswitch", "^TestVerifC09(RefVectors|Pinned)$", [_VEC, "TestVerifC09Pinned"], 1, shards=1),
@@ -50,6 +76,8 @@ PROP = dict(
             job("htlcswitch", "^TestVerifC09Transit$", [_TRN], 200000, shards=4, timeout=1500),
             job("htlcswitch", "^TestVerifC09Switch$", [_SW], 100000, shards=4, timeout=1500),
             job("htlcswitch", "^TestVerifC09LinkInputs$", [_IN], 60000, shards=8, timeout=1500),
+            job("htlcswitch", "^TestVerifC09Intercepted$", [_IC], 250000, shards=8, timeout=1500),
+            job("htlcswitch", "^TestVerifC09InterceptReplayTooSoon$", ["TestVerifC09InterceptReplayTooSoon"], 1, shards=1),
         ],
     ),
 )
